@@ -5,7 +5,8 @@ import numpy as np
 from hypothesis import strategies as st
 
 from .. import gen
-from ..config import CROPS, crop_params, make_model
+from ..config import CROPS, make_model
+from ..config import PRISTINE_CROP_PARAMS as crop_params
 from ..engine import Result
 from ..observe import init_guard
 
